@@ -32,6 +32,21 @@ var portPool = []string{
 	"-1", "-80", "+80", "+0", "-0", "00080", "080", "0080", "000", "0x50", "1e3", "80.0", "80 ", " 80", "80\n", "８０", "", "port", "8 0", "+", "-", "++80", "+-80", "1_000", "65535.", "٨٠",
 }
 
+type c17Case struct {
+	opts    map[string]string
+	hasHost bool
+	host    string
+	hasPort bool
+	port    string
+	hasS    bool
+	sVal    string
+	hasI    bool
+	iVal    string
+}
+
+// c17Prev: the options of the previous case of this shard (for the replaced-options sequence)
+var c17Prev *c17Case
+
 func runC17(c *core.Ctx) {
 	n := c.N(12000, 250000)
 	c.Job("options", n, func(i int, r *core.Rand) {
@@ -81,11 +96,17 @@ func runC17(c *core.Ctx) {
 		if hasS {
 			ln := []int{32, 32, 32, 31, 33, 0, 16, 64, 44}[r.Pick(9)]
 			sVal = string(r.Bytes(ln))
+			if r.Chance(1, 8) { // the text forms routers publish: Base64 / Base32 of 32 bytes (44 / 56 / 52 characters)
+				sVal = []string{rm.B64Encode(r.Bytes(32)), rm.B32Encode(r.Bytes(32)), rm.B32EncodeNoPad(r.Bytes(32)), rm.B64Encode(r.Bytes(24))}[r.Pick(4)]
+			}
 			opts["s"] = sVal
 		}
 		if hasI {
 			ln := []int{16, 16, 16, 15, 17, 0, 32, 24}[r.Pick(8)]
 			iVal = string(r.Bytes(ln))
+			if r.Chance(1, 8) { // Base64 / Base32 of 16 bytes (24 / 32 / 26 characters); Base64 of 12 bytes is 16 characters
+				iVal = []string{rm.B64Encode(r.Bytes(16)), rm.B32Encode(r.Bytes(16)), rm.B32EncodeNoPad(r.Bytes(16)), rm.B64Encode(r.Bytes(12)), rm.B32EncodeNoPad(r.Bytes(10))}[r.Pick(5)]
+			}
 			opts["i"] = iVal
 		}
 		if r.Chance(1, 3) {
@@ -126,6 +147,27 @@ func runC17(c *core.Ctx) {
 				c17Check(c, a.path, a.ra, opts, hasHost, host, hasPort, port, hasS, sVal, hasI, iVal, enc)
 			})
 		}
+		// the accessors describe the options the address holds NOW: after they have all been called
+		// once, the (exported) TransportOptions of the same value are replaced by those of another
+		// case, and every oracle is applied again to the same value
+		if c17Prev != nil && len(addrs) > 0 && r.Chance(1, 3) {
+			pv := c17Prev
+			a := addrs[r.Pick(len(addrs))]
+			ra := a.ra
+			if nm, err := data.GoMapToMapping(pv.opts); err == nil && nm != nil {
+				ra.TransportOptions = nm
+				enc2 := []byte(fmt.Sprintf("%q -> %q", opts, pv.opts))
+				c.Call("accessors-after-options-replaced/"+a.path, enc2, func() {
+					c17Check(c, a.path+" (options replaced after a first round of accessor calls)", ra, pv.opts, pv.hasHost, pv.host, pv.hasPort, pv.port, pv.hasS, pv.sVal, pv.hasI, pv.iVal, enc2)
+				})
+				c.Bucket("options-replaced-on-a-used-value")
+			}
+		}
+		cp := map[string]string{}
+		for k, v := range opts {
+			cp[k] = v
+		}
+		c17Prev = &c17Case{cp, hasHost, host, hasPort, port, hasS, sVal, hasI, iVal}
 		c.Nontrivial([]byte("opts"), enc)
 		if i < 4 {
 			c.Sample(gen.Shape{"host": host, "port": port, "options": len(opts)})
